@@ -113,7 +113,7 @@ type recorder struct {
 }
 
 func (r recorder) Event(obj kruntime.Object, e event.Event) {
-	ev := Event{Step: r.w.S.Step, Type: string(e.Type), Reason: string(e.Reason), Message: e.Message}
+	ev := Event{Step: r.w.S.Step, TaskID: r.w.S.CurrentTaskID(), Type: string(e.Type), Reason: string(e.Reason), Message: e.Message}
 	if o, ok := obj.(metav1.Object); ok {
 		ev.Name = o.GetName()
 	}
@@ -386,7 +386,7 @@ func (w *W) AddFunctionRevision(name string, n int, active bool) error {
 func (w *W) NewProcess() {
 	s := w.S
 	w.Ctrls = nil
-	w.Fn = &simfn.Transport{Sim: s, Proc: w.Core, BetaOnly: map[string]bool{}, Faults: w.Opts.FnFaults}
+	w.Fn = &simfn.Transport{Sim: s, Proc: w.Core, BetaOnly: map[string]bool{}, Faults: w.Opts.FnFaults, LogSeq: w.Store.Seq}
 	if w.OnFnTransport != nil {
 		w.OnFnTransport(w.Fn)
 	}
